@@ -1,1 +1,114 @@
-From MiniMcmc Require Import Model.MH Model.HMC.
+(* C14 — no sampler ever moves to a zero-density, NaN-density or non-finite state.
+   IEEE-754 statements (Flocq, generic in the format: binary32 and binary64) about the accept
+   decisions of MH (Model/MH.v), HMC (Model/HMC.v) and NUTS (Model/NUTS.v). *)
+From MiniMcmc Require Import Base.Fp Model.MH Model.HMC Model.NUTS Proofs.MH Proofs.HMC Proofs.NUTS Proofs.NoBad.
+
+Section C14.
+  Variables prec emax : Z.
+  Context (Hprec : FLX.Prec_gt_0 prec) (Hmax : BinarySingleNaN.Prec_lt_emax prec emax).
+  Notation fl := (binary_float prec emax).
+  Variable nanf : fl -> fl -> { x : fl | Binary.is_nan prec emax x = true }.
+  Variable nanf1 : fl -> { x : fl | Binary.is_nan prec emax x = true }.
+
+  (* MH: a candidate whose log-density is NaN or -inf is rejected for EVERY value of the other
+     three log-terms and of ln u (including ln u = -inf, i.e. u = 0) *)
+  Theorem C14_mh : forall (St : Type) (x y : St) (lp_x lp_y lq_xy lq_yx lnu : fl),
+    fnan lp_y = true \/ fneginf lp_y = true ->
+    mh_step nanf x y lp_x lp_y lq_xy lq_yx lnu = x.
+  Proof.
+    intros St x y lp_x lp_y lq_xy lq_yx lnu H. unfold mh_step.
+    rewrite (@mh_reject_bad prec emax Hprec Hmax nanf lp_x lp_y lq_xy lq_yx lnu H). reflexivity.
+  Qed.
+
+  (* HMC: the Hamiltonian of a proposal whose log-density is NaN or -inf is NaN or +inf (whatever
+     its kinetic energy, also non-finite momenta) ... *)
+  Theorem C14_hmc_energy : forall lp ke : fl,
+    fnan lp = true \/ fneginf lp = true ->
+    fnan (@energy prec emax Hprec Hmax nanf nanf1 lp ke) = true \/ fposinf (@energy prec emax Hprec Hmax nanf nanf1 lp ke) = true.
+  Proof. exact (@energy_bad prec emax Hprec Hmax nanf nanf1). Qed.
+
+  (* ... and such a proposal is never accepted unless ln u = -inf (acceptance draw exactly 0) *)
+  Theorem C14_hmc : forall (A : Type) (x x' : A) (h_cur h_prop lnu : fl),
+    fnan h_prop = true \/ fposinf h_prop = true ->
+    fneginf lnu = false ->
+    hmc_row_float nanf x x' h_cur h_prop lnu = x.
+  Proof.
+    intros A x x' h_cur h_prop lnu [H|H] Hl; unfold hmc_row_float.
+    - rewrite (@hmc_accept_nan prec emax Hprec Hmax nanf h_cur h_prop lnu (or_introl H)). reflexivity.
+    - destruct (hmc_accept nanf h_cur h_prop lnu) eqn:E; [|reflexivity].
+      rewrite (@hmc_accept_posinf prec emax Hprec Hmax nanf h_cur h_prop lnu H E) in Hl. discriminate Hl.
+  Qed.
+
+  (* a value that passes the slice test `logu < joint` is neither NaN nor -inf *)
+  Theorem C14_slice_admissible_finite_density : forall logu j : fl,
+    flt logu j = true -> fnan j = false /\ fneginf j = false.
+  Proof. exact (@flt_true_rhs prec emax). Qed.
+End C14.
+
+Section C14_nuts.
+  Variables prec emax : Z.
+  Notation fl := (binary_float prec emax).
+  Context {P A U : Type}.
+  Variable leap : bool -> P -> P.
+  Variable joint : P -> fl.                 (* the joint log-density as an IEEE value *)
+  Variable noturn : P -> P -> bool.
+  Variable sub1000 : fl -> fl.
+  Variable alpha1 : P -> A.
+  Variable aadd : A -> A -> A.
+  Variable take2 : U -> nat -> nat -> bool.
+  Variable logu : fl.
+  Variable accept_top : U -> nat -> nat -> bool.
+  Variable okU : U -> Prop.
+  Hypothesis Htake0 : forall u n1, okU u -> take2 u n1 0 = false.
+  Hypothesis Htake1 : forall u n2, okU u -> take2 u 0 (S n2) = true.
+  Hypothesis Hacc0 : forall u n, okU u -> accept_top u 0 n = false.
+
+  (* NUTS: after a transition the chain is at its previous state or at a trajectory point whose
+     joint log-density is neither NaN nor -inf (so its log-density is not -inf/NaN and, for a
+     target that is NaN/-inf at non-finite positions, its coordinates are finite) *)
+  Theorem C14_nuts : forall fuel z0 dirs tus accs st recs dr tr ar,
+    Forall okU tus -> Forall okU accs ->
+    transition leap joint noturn flt sub1000 alpha1 aadd take2 logu accept_top fuel z0 dirs tus accs
+      = Some (st, recs, dr, tr, ar) ->
+    cur st = z0 \/ (fnan (joint (cur st)) = false /\ fneginf (joint (cur st)) = false).
+  Proof.
+    intros fuel z0 dirs tus accs st recs dr tr ar Ht Ha H.
+    destruct (transition_next_state leap joint noturn flt sub1000 alpha1 aadd take2 logu accept_top
+                okU Htake0 Htake1 Hacc0 fuel z0 dirs tus accs st recs dr tr ar Ht Ha H) as [E|[v [k [_ [_ Hadm]]]]].
+    - left. exact E.
+    - right. exact (@flt_true_rhs prec emax logu (joint (cur st)) Hadm).
+  Qed.
+
+  (* a leaf of NaN joint density contributes no admissible point and stops its sub-tree *)
+  Theorem C14_nuts_nan_leaf : forall v z,
+    fnan (joint (leap v z)) = true ->
+    tn (leaf leap joint flt sub1000 alpha1 logu v z) = 0 /\ ts (leaf leap joint flt sub1000 alpha1 logu v z) = false.
+  Proof.
+    intros v z H. unfold leaf; simpl.
+    assert (E : forall a : fl, flt a (joint (leap v z)) = false).
+    { intros a. destruct (flt a (joint (leap v z))) eqn:F; [|reflexivity].
+      destruct (@flt_true_rhs prec emax a _ F) as [N _]. rewrite H in N. discriminate N. }
+    rewrite !E. split; reflexivity.
+  Qed.
+End C14_nuts.
+
+(* Non-vacuity / concrete instances in binary32 *)
+Example C14_mh_concrete :
+  (* lp_y = -inf, everything else 0, ln u = -inf (u = 0): rejected *)
+  mh_accept32 0 4286578688 0 0 4286578688 = [0%Z] /\
+  (* lp_y = NaN *)
+  mh_accept32 0 2143289344 0 0 3212836864 = [0%Z].
+Proof. split; vm_compute; reflexivity. Qed.
+
+Example C14_hmc_concrete :
+  (* h_prop = +inf, ln u = -1: mask 0;  h_prop = NaN, ln u = -inf: mask 0 *)
+  nth 1 (hmc_decide32 1065353216 2139095040 3212836864) 9%Z = 0%Z /\
+  nth 1 (hmc_decide32 1065353216 2143289344 4286578688) 9%Z = 0%Z.
+Proof. split; vm_compute; reflexivity. Qed.
+
+Print Assumptions C14_mh.
+Print Assumptions C14_hmc_energy.
+Print Assumptions C14_hmc.
+Print Assumptions C14_slice_admissible_finite_density.
+Print Assumptions C14_nuts.
+Print Assumptions C14_nuts_nan_leaf.
